@@ -31,12 +31,16 @@ AttrForms == { [nm |-> "t", s |-> "[t]",                   slot |-> Caret],
                [nm |-> "t", s |-> "[t=\"\"]",              slot |-> Caret],
                [nm |-> "r", s |-> "[r=v]",                 slot |-> <<>>],
                [nm |-> "u", s |-> "[u=\"${2} ${1:ph}\"]",  slot |-> <<F(2, ""), F(1, "ph")>>],
-               [nm |-> "w", s |-> "[w=\"a${3}\"]",         slot |-> <<F(3, "")>>] }
+               [nm |-> "w", s |-> "[w=\"a${3}\"]",         slot |-> <<F(3, "")>>],
+               [nm |-> "v", s |-> "[v=\"a\rb\"]",           slot |-> <<>>] }          \* a lone carriage return inside a value
 TextForms == { [s |-> "{txt}",           slot |-> <<>>],
                [s |-> "{${1}}",          slot |-> <<F(1, "")>>],
                [s |-> "{a${2:p}b${1}}",  slot |-> <<F(2, "p"), F(1, "")>>],
                [s |-> "{${0}}",          slot |-> <<F(0, "")>>],
-               [s |-> "{a\nb${1}c}",     slot |-> <<F(1, "")>>] }
+               [s |-> "{a\nb${1}c}",     slot |-> <<F(1, "")>>],
+               [s |-> "{${1:a} x\ny}",   slot |-> <<F(1, "a")>>],                    \* the field is on an earlier line than the last
+               [s |-> "{${2:p}\nq${1}}", slot |-> <<F(2, "p"), F(1, "")>>],
+               [s |-> "{c\rd}",          slot |-> <<>>] }
 Names == {"x", "y"}
 
 Init == abbr = "" /\ ntok = 0 /\ expect = "item" /\ frames = << <<>> >> /\ pend = NoPend
